@@ -470,7 +470,9 @@ def explore_all(program: Program, max_states: int):
     Explorer(program, ("m_pos",), 50).explore()
     global _PROGRAM
     _PROGRAM = program
-    jobs = [(grp, n, max_states) for grp, n in GROUPS]
+    # the two-system auxiliary group has a far larger configuration space than the others (it does not close within
+    # 400 000 configurations): it is explored to a bound, the others to their fixed point
+    jobs = [(grp, n, min(max_states, 30000) if (n == 2 and len(grp) > 1) else max_states) for grp, n in GROUPS]
     with mp.get_context("fork").Pool(min(len(jobs), 8)) as pool:
         return pool.map(_run_group, jobs)
 
